@@ -21,7 +21,7 @@ structure Inv (s : State) : Prop where
   /-- no null `_caller` / `_arg` / `_ret` was dereferenced -/
   noub : s.ub = false
   /-- delivered ++ handed over ++ still to come = the whole sequence -/
-  seq_run : s.bst ≠ .final → s.obs ++ pend s ++ expected s.script = expected s.script0
+  seq_run : s.bst ≠ .final → s.obs ++ pend s ++ expectedFrom s.acc s.script = expected s.script0
   seq_fin : s.bst = .final → s.obs ++ pend s = expected s.script0
   flags_run : s.bst ≠ .final → s.done = false ∧ s.exp = false
   flags_fin : s.bst = .final → s.done = !s.exp
@@ -55,6 +55,10 @@ structure Inv (s : State) : Prop where
   sync_post : inSync s = true → s.post = []
   /-- `_arg`, when set, is the argument of the most recent `set_arg` -/
   arg_last : s.mode = true → s.arg = none ∨ s.arg = some s.lastArg
+  /-- parked at `co_yield acc`: what `_ret` reads is the content of the body's variable -/
+  acc_ret : s.bst = .yield → s.atAcc = true → s.ret = some s.acc
+  /-- whenever the body was resumed from `co_yield acc`, its variable still held what it had yielded -/
+  acc_ok : ∀ p ∈ s.accLog, p.1 = p.2
 
 /-! ### normal forms: the derived notions as functions of the fields they read, so that `simp` sees through record updates -/
 
@@ -102,29 +106,33 @@ theorem inSyncC_true {c : Cons} : inSyncC c = true ↔ ∃ k, c = .inSync k := b
 @[simp] theorem curOf_fin (e : Bool) (r : Option Nat) : curOf true e r = .fin := rfl
 @[simp] theorem curOf_exc (r : Option Nat) : curOf false true r = .exc := rfl
 
-@[simp] theorem expected_awaitReady (r : List Act) : expected (.awaitReady :: r) = expected r := by
-  simp [expected, yields, ending]
-@[simp] theorem expected_pause (r : List Act) : expected (.pause :: r) = expected r := by
-  simp [expected, yields, ending]
-@[simp] theorem expected_yieldNull (r : List Act) : expected (.yieldNull :: r) = expected r := by
-  simp [expected, yields, ending]
-@[simp] theorem expected_guard (r : List Act) : expected (.guard :: r) = expected r := by
-  simp [expected, yields, ending]
-@[simp] theorem expected_await (k : Nat) (r : List Act) : expected (.await k :: r) = expected r := by
-  simp [expected, yields, ending]
-@[simp] theorem expected_yield (v : Nat) (r : List Act) : expected (.yield v :: r) = .val v :: expected r := by
-  simp [expected, yields, ending]
-@[simp] theorem expected_throw (r : List Act) : expected (.throw :: r) = [.exc] := by
-  simp [expected, yields, ending]
-@[simp] theorem expected_ret (r : List Act) : expected (.ret :: r) = [.fin] := by
-  simp [expected, yields, ending]
-@[simp] theorem expected_nil : expected [] = [.fin] := by
-  simp [expected, yields, ending]
+@[simp] theorem expectedFrom_awaitReady (acc : Nat) (r : List Act) : expectedFrom acc (.awaitReady :: r) = expectedFrom acc r := by
+  simp [expectedFrom, yieldsFrom, ending]
+@[simp] theorem expectedFrom_pause (acc : Nat) (r : List Act) : expectedFrom acc (.pause :: r) = expectedFrom acc r := by
+  simp [expectedFrom, yieldsFrom, ending]
+@[simp] theorem expectedFrom_yieldNull (acc : Nat) (r : List Act) : expectedFrom acc (.yieldNull :: r) = expectedFrom acc r := by
+  simp [expectedFrom, yieldsFrom, ending]
+@[simp] theorem expectedFrom_guard (acc : Nat) (r : List Act) : expectedFrom acc (.guard :: r) = expectedFrom acc r := by
+  simp [expectedFrom, yieldsFrom, ending]
+@[simp] theorem expectedFrom_await (acc k : Nat) (r : List Act) : expectedFrom acc (.await k :: r) = expectedFrom acc r := by
+  simp [expectedFrom, yieldsFrom, ending]
+@[simp] theorem expectedFrom_yield (acc v : Nat) (r : List Act) :
+    expectedFrom acc (.yield v :: r) = .val v :: expectedFrom acc r := by
+  simp [expectedFrom, yieldsFrom, ending]
+@[simp] theorem expectedFrom_yieldAcc (acc c : Nat) (r : List Act) :
+    expectedFrom acc (.yieldAcc c :: r) = .val (acc * 10 + c) :: expectedFrom (acc * 10 + c) r := by
+  simp [expectedFrom, yieldsFrom, ending]
+@[simp] theorem expectedFrom_throw (acc : Nat) (r : List Act) : expectedFrom acc (.throw :: r) = [.exc] := by
+  simp [expectedFrom, yieldsFrom, ending]
+@[simp] theorem expectedFrom_ret (acc : Nat) (r : List Act) : expectedFrom acc (.ret :: r) = [.fin] := by
+  simp [expectedFrom, yieldsFrom, ending]
+@[simp] theorem expectedFrom_nil (acc : Nat) : expectedFrom acc [] = [.fin] := by
+  simp [expectedFrom, yieldsFrom, ending]
 
 set_option hygiene false in
 macro "inv_cases " h:ident : tactic => `(tactic|
   obtain ⟨noub, seq_run, seq_fin, flags_run, flags_fin, ret_yield, ret_fin, busy_iff, stuck_fin, c_awt, c_int, c_none,
-    reader_pending, arg_ok, guards, live_fin, live_dead, got_ok, post_end, post_fin, post_exc, await_unres, seen_eq, sync_post, arg_last⟩ := $h)
+    reader_pending, arg_ok, guards, live_fin, live_dead, got_ok, post_end, post_fin, post_exc, await_unres, seen_eq, sync_post, arg_last, acc_ret, acc_ok⟩ := $h)
 
 /-- split the goal `Inv _` into its clauses and normalise each against the hypotheses -/
 macro "inv_dbg" : tactic => `(tactic|
@@ -135,13 +143,13 @@ macro "inv_close" : tactic => `(tactic|
     first | assumption | grind | omega))
 
 theorem inv_init (mode : Bool) (sc : List Act) : Inv (init mode sc) := by
-  constructor <;> simp [init, pend, inSync, midAccess]
+  constructor <;> simp [init, pend, inSync, midAccess, expected]
 
 /-! ### the body -/
 
 /-- a statement that neither yields nor ends the body is executed -/
 theorem inv_skip {s : State} (h : Inv s) (hr : s.bst = .run) (rest : List Act)
-    (he : expected s.script = expected rest) : Inv { s with script := rest } := by
+    (he : expectedFrom s.acc s.script = expectedFrom s.acc rest) : Inv { s with script := rest } := by
   inv_cases h
   inv_close
 
@@ -194,9 +202,10 @@ theorem inv_wakeReader {s : State} (i : Item) (h : Inv { s with reader := none }
   · exact inv_evs h _
   · exact inv_evs h _
 
+set_option maxHeartbeats 1600000 in
 /-- `co_yield v`: whoever asked gets exactly `v` -/
 theorem inv_yieldAt {s : State} (h : Inv s) (hr : s.bst = .run) (v : Nat) (rest : List Act)
-    (he : expected s.script = .val v :: expected rest) : Inv (yieldAt { s with script := rest } v) := by
+    (he : expectedFrom s.acc s.script = .val v :: expectedFrom s.acc rest) : Inv (yieldAt { s with script := rest } v) := by
   have hfl := h.flags_run (by simp [hr])
   have hbusy := h.busy_iff
   have hsf := h.stuck_fin
@@ -225,9 +234,41 @@ theorem inv_yieldAt {s : State} (h : Inv s) (hr : s.bst = .run) (v : Nat) (rest 
         inv_close
 
 set_option maxHeartbeats 1600000 in
+/-- `acc.append(c); co_yield acc;`: whoever asked gets the new content of the variable, and `_ret` reads the variable -/
+theorem inv_yieldAccAt {s : State} (h : Inv s) (hr : s.bst = .run) (c : Nat) (rest : List Act)
+    (he : expectedFrom s.acc s.script = .val (s.acc * 10 + c) :: expectedFrom (s.acc * 10 + c) rest) :
+    Inv (yieldAccAt { s with script := rest } c) := by
+  have hfl := h.flags_run (by simp [hr])
+  have hbusy := h.busy_iff
+  have hsf := h.stuck_fin
+  cases hc : s.caller with
+  | none => simp [hc, midAccess_eq, hr] at hbusy
+  | awt =>
+      have hst : s.stuck = false := by
+        cases hs : s.stuck with
+        | false => rfl
+        | true => have := (hsf hs).1; simp [hr] at this
+      have hca := h.c_awt hc hst
+      simp only [yieldAccAt, deliver, resumeAwt]
+      inv_cases h
+      inv_close
+  | internal =>
+      rcases h.c_int hc with ⟨hi, h2, h3, h4⟩ | ⟨hi, h2, h3, h4⟩
+      · simp only [yieldAccAt, deliver, hi, unblockSync]
+        obtain ⟨kk, hk⟩ := inSyncC_true.mp (by simpa [inSync_eq] using h2)
+        inv_cases h
+        inv_close
+      · simp only [yieldAccAt, deliver, hi, unblockFuture, h2, hfl.1, hfl.2, Option.isNone_some,
+          Bool.and_false, Bool.false_eq_true, if_false, if_true, cur_eq, curOf_val]
+        apply inv_wakeReader
+        dsimp only
+        inv_cases h
+        inv_close
+
+set_option maxHeartbeats 1600000 in
 /-- the body ends (exception or `co_return`): whoever asked gets the end / the exception, locals are destroyed once -/
 theorem inv_finish {s : State} (h : Inv s) (hr : s.bst = .run) (threw : Bool)
-    (he : expected s.script = [if threw then Item.exc else Item.fin]) : Inv (finish s threw) := by
+    (he : expectedFrom s.acc s.script = [if threw then Item.exc else Item.fin]) : Inv (finish s threw) := by
   have hfl := h.flags_run (by simp [hr])
   have hbusy := h.busy_iff
   have hsf := h.stuck_fin
@@ -282,6 +323,43 @@ theorem inv_finish {s : State} (h : Inv s) (hr : s.bst = .run) (threw : Bool)
   unfold recvArg; split
   · split <;> rfl
   · rfl
+@[simp] theorem recvArg_atAcc (s : State) : (recvArg s).atAcc = s.atAcc := by
+  unfold recvArg; split
+  · split <;> rfl
+  · rfl
+@[simp] theorem recvArg_ret (s : State) : (recvArg s).ret = s.ret := by
+  unfold recvArg; split
+  · split <;> rfl
+  · rfl
+@[simp] theorem recvArg_acc (s : State) : (recvArg s).acc = s.acc := by
+  unfold recvArg; split
+  · split <;> rfl
+  · rfl
+@[simp] theorem seeAcc_bst (s : State) : (seeAcc s).bst = s.bst := by
+  unfold seeAcc; split <;> rfl
+@[simp] theorem seeAcc_script (s : State) : (seeAcc s).script = s.script := by
+  unfold seeAcc; split <;> rfl
+
+/-- resumed from `co_yield acc`, the body finds in its variable what `_ret` read while it was parked -/
+theorem inv_seeAcc {s : State} (h : Inv s) (hr : s.bst = .run) (hacc : s.atAcc = true → s.ret = some s.acc) :
+    Inv (seeAcc s) := by
+  unfold seeAcc
+  split
+  · rename_i hat
+    have hret := hacc hat
+    inv_cases h
+    inv_close
+  · exact h
+
+/-- the count of installed queues is only a log -/
+theorem inv_qinst {s : State} (h : Inv s) (n : Nat) : Inv { s with qinst := n } := by
+  inv_cases h
+  inv_close
+
+/-- the consumer's execution context is not part of the hand-over -/
+theorem inv_coro {s : State} (h : Inv s) (b : Bool) : Inv { s with coro := b } := by
+  inv_cases h
+  inv_close
 
 /-- running the body up to its next suspension keeps the invariant — by induction over the script -/
 theorem inv_exec : ∀ (sc : List Act) (s : State), Inv s → s.bst = .run → s.script = sc → Inv (exec sc s)
@@ -289,6 +367,8 @@ theorem inv_exec : ∀ (sc : List Act) (s : State), Inv s → s.bst = .run → s
       unfold exec; exact inv_finish h hr false (by simp [hs])
   | .yield v :: rest, s, h, hr, hs => by
       unfold exec; exact inv_yieldAt h hr v rest (by simp [hs])
+  | .yieldAcc c :: rest, s, h, hr, hs => by
+      unfold exec; exact inv_yieldAccAt h hr c rest (by simp [hs])
   | .yieldNull :: rest, s, h, hr, hs => by
       unfold exec
       have h1 := inv_skip h hr rest (by simp [hs])
@@ -316,12 +396,22 @@ theorem inv_exec : ∀ (sc : List Act) (s : State), Inv s → s.bst = .run → s
 
 /-- `h.resume()` on a generator whose hand-over record has just been armed -/
 theorem inv_resumeBody {t : State} (hrun : Inv { t with bst := .run })
-    (hb : t.bst = .init ∨ t.bst = .yield ∨ ∃ k, t.bst = .await k) : Inv (resumeBody t) := by
+    (hb : t.bst = .init ∨ t.bst = .yield ∨ ∃ k, t.bst = .await k)
+    (hacc : t.bst = .yield → t.atAcc = true → t.ret = some t.acc) : Inv (resumeBody t) := by
   unfold resumeBody
   rcases hb with hb | hb | ⟨k, hb⟩ <;> simp only [hb]
   · exact inv_exec _ _ hrun rfl rfl
-  · exact inv_exec _ _ (inv_recvArg hrun rfl) (by simp) (by simp)
+  · exact inv_exec _ _ (inv_seeAcc (inv_recvArg hrun rfl) (by simp) (by simpa using hacc hb)) (by simp) (by simp)
   · exact inv_exec _ _ hrun rfl rfl
+
+/-- `resume_in_queue`: the same activation of the body, whether or not a queue had to be installed for it -/
+theorem inv_resumeInQueue {t : State} (hrun : Inv { t with bst := .run })
+    (hb : t.bst = .init ∨ t.bst = .yield ∨ ∃ k, t.bst = .await k)
+    (hacc : t.bst = .yield → t.atAcc = true → t.ret = some t.acc) : Inv (resumeInQueue t) := by
+  unfold resumeInQueue
+  split
+  · exact inv_resumeBody hrun hb hacc
+  · exact inv_resumeBody (t := { t with qinst := t.qinst + 1 }) (inv_qinst hrun _) hb hacc
 
 /-! ### consumer operations -/
 
@@ -384,6 +474,12 @@ theorem inv_post_stuck {s : State} (h : Inv s) (hns : inSync s = false) (hf : s.
   unfold setArg; split <;> rfl
 @[simp] theorem setArg_cons (s : State) (a : Nat) : (setArg s a).cons = s.cons := by
   unfold setArg; split <;> rfl
+@[simp] theorem setArg_atAcc (s : State) (a : Nat) : (setArg s a).atAcc = s.atAcc := by
+  unfold setArg; split <;> rfl
+@[simp] theorem setArg_ret (s : State) (a : Nat) : (setArg s a).ret = s.ret := by
+  unfold setArg; split <;> rfl
+@[simp] theorem setArg_acc (s : State) (a : Nat) : (setArg s a).acc = s.acc := by
+  unfold setArg; split <;> rfl
 
 set_option maxHeartbeats 800000 in
 theorem inv_setArg {s : State} (h : Inv s) (hm : midAccess s = false) (a : Nat) : Inv (setArg s a) := by
@@ -391,21 +487,24 @@ theorem inv_setArg {s : State} (h : Inv s) (hm : midAccess s = false) (a : Nat) 
   inv_cases h
   split <;> inv_close
 
+set_option maxHeartbeats 1600000 in
 /-- `next_sync` arms `_internal` for the blocking wait and resumes the body -/
 theorem inv_arm_sync {s : State} (h : Inv s) (hal : s.alive = true) (hc : s.caller = .none) (hns : inSync s = false) (hf : s.bst ≠ .final)
     (kind : SyncKind) (a : Nat) :
-    Inv (resumeBody { setArg s a with block := false, caller := .internal, ifn := .sync, cons := .inSync kind }) := by
+    Inv (resumeInQueue { setArg s a with block := false, caller := .internal, ifn := .sync, cons := .inSync kind }) := by
   obtain ⟨hm, hst, hcp, hfp⟩ := idle_facts h hc
   have hb := idle_bst hm hf
   have hci : s.cons = .idle := by
     rw [inSync_eq] at hns
     cases hcs : s.cons <;> simp_all
-  apply inv_resumeBody
+  apply inv_resumeInQueue
   · unfold setArg
     inv_cases h
     split <;> inv_close
   · simpa using Or.elim hb Or.inl (fun h => Or.inr (Or.inl h))
+  · simpa using h.acc_ret
 
+set_option maxHeartbeats 1600000 in
 /-- `next_async` stores the consumer's awaiter and transfers into the body -/
 theorem inv_arm_awt {s : State} (h : Inv s) (hal : s.alive = true) (hc : s.caller = .none) (hns : inSync s = false) (hf : s.bst ≠ .final)
     (a : Nat) (m : AwtKind) :
@@ -420,21 +519,41 @@ theorem inv_arm_awt {s : State} (h : Inv s) (hal : s.alive = true) (hc : s.calle
     inv_cases h
     split <;> inv_close
   · simpa using Or.elim hb Or.inl (fun h => Or.inr (Or.inl h))
+  · simpa using h.acc_ret
 
-/-- `next_future` stores the promise, arms `_internal` and resumes the body -/
-theorem inv_arm_fut {s : State} (h : Inv s) (hal : s.alive = true) (hc : s.caller = .none) (hns : inSync s = false) (hf : s.bst ≠ .final)
-    (a : Nat) :
-    Inv (resumeBody { setArg s a with awaiting := true, caller := .internal, ifn := .future, fut := .pending }) := by
+set_option maxHeartbeats 1600000 in
+/-- `next_awt::subscribe`: `next_async` stores the consumer's callback awaiter, the body is activated by `resume_in_queue` -/
+theorem inv_arm_sub {s : State} (h : Inv s) (hal : s.alive = true) (hc : s.caller = .none) (hns : inSync s = false) (hf : s.bst ≠ .final)
+    (a : Nat) (m : AwtKind) :
+    Inv (resumeInQueue { setArg s a with caller := .awt, cons := .parked, awtKind := m }) := by
   obtain ⟨hm, hst, hcp, hfp⟩ := idle_facts h hc
   have hb := idle_bst hm hf
   have hci : s.cons = .idle := by
     rw [inSync_eq] at hns
     cases hcs : s.cons <;> simp_all
-  apply inv_resumeBody
+  apply inv_resumeInQueue
   · unfold setArg
     inv_cases h
     split <;> inv_close
   · simpa using Or.elim hb Or.inl (fun h => Or.inr (Or.inl h))
+  · simpa using h.acc_ret
+
+set_option maxHeartbeats 1600000 in
+/-- `next_future` stores the promise, arms `_internal` and resumes the body -/
+theorem inv_arm_fut {s : State} (h : Inv s) (hal : s.alive = true) (hc : s.caller = .none) (hns : inSync s = false) (hf : s.bst ≠ .final)
+    (a : Nat) :
+    Inv (resumeInQueue { setArg s a with awaiting := true, caller := .internal, ifn := .future, fut := .pending }) := by
+  obtain ⟨hm, hst, hcp, hfp⟩ := idle_facts h hc
+  have hb := idle_bst hm hf
+  have hci : s.cons = .idle := by
+    rw [inSync_eq] at hns
+    cases hcs : s.cons <;> simp_all
+  apply inv_resumeInQueue
+  · unfold setArg
+    inv_cases h
+    split <;> inv_close
+  · simpa using Or.elim hb Or.inl (fun h => Or.inr (Or.inl h))
+  · simpa using h.acc_ret
 
 theorem inv_syncGo {s : State} (h : Inv s) (hal : s.alive = true) (hc : s.caller = .none) (hns : inSync s = false)
     (kind : SyncKind) (a : Nat) : Inv (syncGo (setArg s a) kind).1 := by
@@ -525,7 +644,7 @@ theorem inv_subGo {s : State} (h : Inv s) (hal : s.alive = true) (hc : s.caller 
   · rename_i hf
     exact inv_post_stuck h1 (by simpa [inSync_eq] using hns) (by simpa using hf) (by simpa using hc) _
   · rename_i hf
-    exact inv_arm_awt h hal hc hns (by simpa using hf) a .cb
+    exact inv_arm_sub h hal hc hns (by simpa using hf) a .cb
 
 theorem inv_stepSub {s : State} (h : Inv s) (a : Nat) : Inv (stepSub s a).1 := by
   unfold stepSub
@@ -555,16 +674,17 @@ theorem inv_stepKeep {s : State} (h : Inv s) (a : Nat) : Inv (stepKeep s a).1 :=
 the object was created -/
 theorem inv_arm_sync_kept {s : State} (h : Inv s) (hal : s.alive = true) (hc : s.caller = .none) (hns : inSync s = false)
     (hf : s.bst ≠ .final) (harg : s.mode = true → s.arg = some s.lastArg) :
-    Inv (resumeBody { s with block := false, caller := .internal, ifn := .sync, cons := .inSync .kept }) := by
+    Inv (resumeInQueue { s with block := false, caller := .internal, ifn := .sync, cons := .inSync .kept }) := by
   obtain ⟨hm, hst, hcp, hfp⟩ := idle_facts h hc
   have hb := idle_bst hm hf
   have hci : s.cons = .idle := by
     rw [inSync_eq] at hns
     cases hcs : s.cons <;> simp_all
-  apply inv_resumeBody
+  apply inv_resumeInQueue
   · inv_cases h
     inv_close
   · simpa using Or.elim hb Or.inl (fun h => Or.inr (Or.inl h))
+  · simpa using h.acc_ret
 
 theorem inv_arm_awt_kept {s : State} (h : Inv s) (hal : s.alive = true) (hc : s.caller = .none) (hns : inSync s = false)
     (hf : s.bst ≠ .final) (harg : s.mode = true → s.arg = some s.lastArg) :
@@ -578,6 +698,7 @@ theorem inv_arm_awt_kept {s : State} (h : Inv s) (hal : s.alive = true) (hc : s.
   · inv_cases h
     inv_close
   · simpa using Or.elim hb Or.inl (fun h => Or.inr (Or.inl h))
+  · simpa using h.acc_ret
 
 theorem keptArg_last {s : State} (h : Inv s) (a : Nat) (hk : keptArgOk s a = true) :
     s.mode = true → s.arg = some s.lastArg := by
@@ -705,6 +826,7 @@ theorem inv_stepComplete {s : State} (h : Inv s) (k : Nat) : Inv (stepComplete s
       · inv_cases h
         inv_close
       · exact Or.inr (Or.inr ⟨k, hb'.2⟩)
+      · intro hy; simp [hb'.2] at hy
     · rename_i hb
       have hb' : s.alive = true → ¬ s.bst = .await k := by simpa using hb
       have hld := h.live_dead
@@ -712,6 +834,7 @@ theorem inv_stepComplete {s : State} (h : Inv s) (k : Nat) : Inv (stepComplete s
       constructor <;> simp_all [pend_eq, inSync_eq, midAccess_eq]
       all_goals first | assumption | grind [midB]
 
+set_option maxHeartbeats 1600000 in
 theorem inv_stepDestroy {s : State} (h : Inv s) : Inv (stepDestroy s).1 := by
   unfold stepDestroy
   split
@@ -825,6 +948,7 @@ theorem inv_step {s : State} (h : Inv s) (op : Op) : Inv (step s op).1 := by
   | itDrop => exact inv_it h none
   | complete k => exact inv_stepComplete h k
   | destroy => exact inv_stepDestroy h
+  | ctx b => exact inv_coro h b
 
 /-- the invariant holds after every operation list — induction over the list -/
 theorem inv_run (s : State) (ops : List Op) (h : Inv s) : Inv (run s ops) := by
@@ -855,13 +979,18 @@ def konst (s : State) : List Act × Bool := (s.script0, s.mode)
   unfold finish; rw [konst_deliver]; rfl
 @[simp] theorem konst_yieldAt (s : State) (v : Nat) : konst (yieldAt s v) = konst s := by
   unfold yieldAt; rw [konst_deliver]; rfl
+@[simp] theorem konst_yieldAccAt (s : State) (c : Nat) : konst (yieldAccAt s c) = konst s := by
+  unfold yieldAccAt; rw [konst_deliver]; rfl
 @[simp] theorem konst_recvArg (s : State) : konst (recvArg s) = konst s := by
   unfold recvArg; split
   · split <;> rfl
   · rfl
+@[simp] theorem konst_seeAcc (s : State) : konst (seeAcc s) = konst s := by
+  unfold seeAcc; split <;> rfl
 theorem konst_exec : ∀ (sc : List Act) (s : State), konst (exec sc s) = konst s
   | [], s => by unfold exec; simp
   | .yield v :: rest, s => by unfold exec; rw [konst_yieldAt]; rfl
+  | .yieldAcc c :: rest, s => by unfold exec; rw [konst_yieldAccAt]; rfl
   | .yieldNull :: rest, s => by unfold exec; rw [konst_exec, konst_recvArg]; rfl
   | .awaitReady :: rest, s => by unfold exec; rw [konst_exec]; rfl
   | .pause :: rest, s => by unfold exec; rw [konst_exec]; rfl
@@ -875,9 +1004,11 @@ theorem konst_exec : ∀ (sc : List Act) (s : State), konst (exec sc s) = konst 
 @[simp] theorem konst_resumeBody (s : State) : konst (resumeBody s) = konst s := by
   unfold resumeBody; split
   · rw [konst_exec]; rfl
-  · rw [konst_exec, konst_recvArg]; rfl
+  · rw [konst_exec, konst_seeAcc, konst_recvArg]; rfl
   · rw [konst_exec]; rfl
   · rfl
+@[simp] theorem konst_resumeInQueue (s : State) : konst (resumeInQueue s) = konst s := by
+  unfold resumeInQueue; rw [konst_resumeBody]; split <;> rfl
 @[simp] theorem konst_setArg (s : State) (a : Nat) : konst (setArg s a) = konst s := by
   unfold setArg; split <;> rfl
 @[simp] theorem konst_endSync (s : State) (k : SyncKind) (b : Bool) : konst (endSync s k b).1 = konst s := by
@@ -887,7 +1018,7 @@ theorem konst_exec : ∀ (sc : List Act) (s : State), konst (exec sc s) = konst 
   · rw [konst_endSync]; rfl
   · split
     · rfl
-    · dsimp only; rw [konst_resumeBody]; rfl
+    · dsimp only; rw [konst_resumeInQueue]; rfl
 theorem konst_step (s : State) (op : Op) : konst (step s op).1 = konst s := by
   cases op <;> simp only [step]
   case syncBegin a => unfold stepSyncBegin; repeat (first | rfl | (rw [konst_syncGo, konst_setArg]) | split)
@@ -899,7 +1030,7 @@ theorem konst_step (s : State) (op : Op) : konst (step s op).1 = konst s := by
     repeat (first | rfl | (dsimp only; rw [konst_resumeBody]; exact konst_setArg _ _) | exact konst_setArg _ _ | split)
   case sub a =>
     unfold stepSub subGo
-    repeat (first | rfl | (dsimp only; rw [konst_resumeBody]; exact konst_setArg _ _) | exact konst_setArg _ _ | split)
+    repeat (first | rfl | (dsimp only; rw [konst_resumeInQueue]; exact konst_setArg _ _) | exact konst_setArg _ _ | split)
   case keep a => unfold stepKeep; repeat (first | rfl | exact konst_setArg _ _ | split)
   case ktest => unfold stepKtest; repeat (first | rfl | (rw [konst_syncGo]) | split)
   case kawait =>
@@ -907,7 +1038,7 @@ theorem konst_step (s : State) (op : Op) : konst (step s op).1 = konst s := by
     repeat (first | rfl | (dsimp only; rw [konst_resumeBody]; rfl) | split)
   case call a =>
     unfold stepCall callGo futRes
-    repeat (first | rfl | (dsimp only; rw [konst_resumeBody]; exact konst_setArg _ _) | exact konst_setArg _ _ | split)
+    repeat (first | rfl | (dsimp only; rw [konst_resumeInQueue]; exact konst_setArg _ _) | exact konst_setArg _ _ | split)
   case futWait => unfold stepFutWait; repeat (first | rfl | split)
   case futGet => unfold stepFutGet; repeat (first | rfl | split)
   case futAwait => unfold stepFutRead; repeat (first | rfl | split)
@@ -920,6 +1051,7 @@ theorem konst_step (s : State) (op : Op) : konst (step s op).1 = konst s := by
   case itDrop => rfl
   case complete k => unfold stepComplete; repeat (first | rfl | (dsimp only; rw [konst_resumeBody]; rfl) | split)
   case destroy => unfold stepDestroy; repeat (first | rfl | split)
+  case ctx b => rfl
 
 theorem konst_run (s : State) (ops : List Op) : konst (run s ops) = konst s := by
   induction ops generalizing s with
@@ -949,10 +1081,14 @@ theorem pos_finish (s : State) (b : Bool) : pos (finish s b) = (.final, []) := b
   unfold finish; rw [pos_deliver]; rfl
 theorem pos_yieldAt (s : State) (v : Nat) : pos (yieldAt s v) = (.yield, s.script) := by
   unfold yieldAt; rw [pos_deliver]; rfl
+theorem pos_yieldAccAt (s : State) (c : Nat) : pos (yieldAccAt s c) = (.yield, s.script) := by
+  unfold yieldAccAt; rw [pos_deliver]; rfl
 @[simp] theorem pos_recvArg (s : State) : pos (recvArg s) = pos s := by
   unfold recvArg; split
   · split <;> rfl
   · rfl
+@[simp] theorem pos_seeAcc (s : State) : pos (seeAcc s) = pos s := by
+  unfold seeAcc; split <;> rfl
 
 /-- after running, the body is parked at a `co_yield`, parked on an awaited operation, or finished — and unless it finished,
 the rest of its script got strictly shorter -/
@@ -964,6 +1100,10 @@ theorem exec_pos : ∀ (sc : List Act) (s : State),
   | .yield v :: rest, s => by
       unfold exec
       have := pos_yieldAt { s with script := rest } v
+      simp only [pos, Prod.mk.injEq] at this; simp [this.1, this.2]
+  | .yieldAcc c :: rest, s => by
+      unfold exec
+      have := pos_yieldAccAt { s with script := rest } c
       simp only [pos, Prod.mk.injEq] at this; simp [this.1, this.2]
   | .yieldNull :: rest, s => by
       unfold exec; have := exec_pos rest (recvArg { s with script := rest })
@@ -998,6 +1138,11 @@ theorem resumeBody_not_run (s : State) (h : s.bst ≠ .run) : (resumeBody s).bst
   · exact exec_not_run _ _
   · exact h
 
+theorem resumeInQueue_not_run (s : State) (h : s.bst ≠ .run) : (resumeInQueue s).bst ≠ .run := by
+  unfold resumeInQueue; split
+  · exact resumeBody_not_run _ h
+  · exact resumeBody_not_run _ h
+
 @[simp] theorem endSync_bst (s : State) (k : SyncKind) (b : Bool) : (endSync s k b).1.bst = s.bst := by
   unfold endSync; cases k <;> rfl
 
@@ -1006,7 +1151,7 @@ theorem syncGo_not_run (s : State) (k : SyncKind) (h : s.bst ≠ .run) : (syncGo
   · simpa using h
   · split
     · exact h
-    · exact resumeBody_not_run _ h
+    · exact resumeInQueue_not_run _ h
 
 /-- `run` is only an intermediate position inside one operation -/
 theorem step_not_run (s : State) (op : Op) (h : s.bst ≠ .run) : (step s op).1.bst ≠ .run := by
@@ -1021,7 +1166,7 @@ theorem step_not_run (s : State) (op : Op) (h : s.bst ≠ .run) : (step s op).1.
     repeat (first | exact h | exact hs _ | exact resumeBody_not_run _ (hs _) | split)
   case sub a =>
     unfold stepSub subGo
-    repeat (first | exact h | exact hs _ | exact resumeBody_not_run _ (hs _) | split)
+    repeat (first | exact h | exact hs _ | exact resumeInQueue_not_run _ (hs _) | split)
   case keep a => unfold stepKeep; repeat (first | exact h | exact hs _ | split)
   case ktest => unfold stepKtest; repeat (first | exact h | exact syncGo_not_run _ _ h | split)
   case kawait =>
@@ -1029,7 +1174,7 @@ theorem step_not_run (s : State) (op : Op) (h : s.bst ≠ .run) : (step s op).1.
     repeat (first | exact h | exact resumeBody_not_run _ h | split)
   case call a =>
     unfold stepCall callGo futRes
-    repeat (first | exact h | exact hs _ | exact resumeBody_not_run _ (hs _) | split)
+    repeat (first | exact h | exact hs _ | exact resumeInQueue_not_run _ (hs _) | split)
   case futWait => unfold stepFutWait; repeat (first | exact h | split)
   case futGet => unfold stepFutGet; repeat (first | exact h | split)
   case futAwait => unfold stepFutRead; repeat (first | exact h | split)
@@ -1042,6 +1187,7 @@ theorem step_not_run (s : State) (op : Op) (h : s.bst ≠ .run) : (step s op).1.
   case itDrop => exact h
   case complete k => unfold stepComplete; repeat (first | exact h | exact resumeBody_not_run _ h | split)
   case destroy => unfold stepDestroy; repeat (first | exact h | split)
+  case ctx b => exact h
 
 theorem run_not_run (s : State) (ops : List Op) (h : s.bst ≠ .run) : (run s ops).bst ≠ .run := by
   induction ops generalizing s with
